@@ -741,7 +741,8 @@ void ScriptEmitter::EmitCaseLabel(sval_t case_parm, sval_t parameter_list, sourc
 {
     if (case_parm.node[0].type == statementType_e::Integer)
     {
-        EmitCaseLabel(case_parm.node[1].intValue, sourceLoc);
+        // the lexer stores every integer literal in longValue: keep all 64 bits
+        EmitCaseLabel((int64_t)case_parm.node[1].longValue, sourceLoc);
     }
     else if (case_parm.node[0].type == statementType_e::String)
     {
@@ -749,7 +750,7 @@ void ScriptEmitter::EmitCaseLabel(sval_t case_parm, sval_t parameter_list, sourc
     }
     else if (case_parm.node[0].type == statementType_e::Func1Expr && case_parm.node[1].byteValue == OP_UN_MINUS)
     {
-        EmitCaseLabel(-(int32_t)case_parm.node[2].node[1].intValue, sourceLoc);
+        EmitCaseLabel((int64_t)(0 - case_parm.node[2].node[1].longValue), sourceLoc);
     }
     else
     {
@@ -774,10 +775,10 @@ void ScriptEmitter::EmitCaseLabel(const prchar_t* name, sourceLocation_t sourceL
     }
 }
 
-void ScriptEmitter::EmitCaseLabel(int32_t label, sourceLocation_t sourceLoc)
+void ScriptEmitter::EmitCaseLabel(int64_t label, sourceLocation_t sourceLoc)
 {
-    // "-2147483648" needs 11 characters and the terminator
-    prchar_t name[12]{};
+    // "-9223372036854775808" needs 20 characters and the terminator
+    prchar_t name[21]{};
     std::to_chars(name, name + sizeof(name) - 1, label);
 
     EmitCaseLabel(name, sourceLoc);
